@@ -4,6 +4,7 @@ CONFIG = dict(
     harness="c02",
     comparisons=[
         dict(name="model", code=200, kind="eq"),
+        dict(name="valid_emf_json", code=201, kind="holds", predicate=True),
     ],
     trusted_base=COMMON_TB + [FLOCQ_AXIOMS_NOTE],
     assumptions=[
